@@ -779,13 +779,13 @@ def deep_tail(ctx, hcmd, dcmd):
     # stratified: every writer lock x reader mode, one and two writers, every number of messages left
     # pending (0..room) when the exploration starts; plus array-blocking-queue histories
     plans = []
-    for rep in range(1 if q else 12):
+    for rep in range(1 if q else 4):
         for wl in WLS:
             for rm in RMS:
                 for W in ((1,) if wl == "single" else (1, 2)):
                     for lag in (0, 1, 2, 3):
                         plans.append(("chan", wl, rm, W, lag))
-    for i in range(30 if q else 400):
+    for i in range(30 if q else 150):
         plans.append(("abq",))
     for plan in plans:
         if plan[0] == "chan":
@@ -848,7 +848,7 @@ def deep_tail(ctx, hcmd, dcmd):
 
     def explore(job):
         r, pre = job
-        g = vlib.explore_schedules(hcmd, r["conf"], 2, max_runs=150 if q else 1500, start_prefix=pre, workers=1)
+        g = vlib.explore_schedules(hcmd, r["conf"], 2, max_runs=150 if q else 400, start_prefix=pre, workers=1)
         out = []
         for sc, _ in g:
             x = dict(r)
@@ -861,7 +861,7 @@ def deep_tail(ctx, hcmd, dcmd):
             stats["tail_schedules"] += len(out)
             stats["exhausted"] += bool(exh)
     ctx.cov["deep_tail"] = stats
-    vlib.conc_correspondence(ctx, hcmd, dcmd, runs, judge=judge, label="tieC_deep_tail", escalate=False)
+    vlib.conc_correspondence_batched(ctx, hcmd, dcmd, runs, judge=judge, label="tieC_deep_tail", escalate=False)
 
 
 # --------------------------------------------------------------------------- main
